@@ -126,4 +126,40 @@ setitem.raises_allowed = ("ValueError", "AssertionError")      # a block row tha
 setitem.ensures_on_raise = _on_raise
 setitem.abstract_error_branches = True
 
-ALL = [setitem]
+
+
+
+# ------------------------------------------------------------------------------------------------ FSArray.__getitem__
+#   a[r]            the row r itself; IndexError exactly when r is not a row (negative indices are not supported by the code:
+#                   they raise - the statement quantifies over rows and regions that exist)
+#   a[r0:r1]        the rows r0..r1-1 that exist (Python slice semantics on the row list)
+#   a[r0:r1, c0:c1] for every row of a[r0:r1]: the cells of that row in columns c0..c1-1 (what the cells show; blanks right of a
+#                   short row are not materialised)
+def _get_ensures(a, r):
+    rows = a.self.rows
+    n = z3.Length(rows)
+    idx = a.slicetuple
+    if z3.is_expr(idx):                 # int
+        return [("post.row_itself", r == rows[idx])]
+    if S.is_slice(idx):
+        return [("post.rows_of_the_slice", r == S.pyslice(rows, idx.start, idx.stop))]
+    rs, cs = idx
+    sel = S.pyslice(rows, rs.start, rs.stop)
+    st = a.final_state
+
+    def at(i):
+        st.add_index(i)
+        return Implies(And(i >= 0, i < length(sel)), cells(r[i]) == S.pyslice(cells(sel[i]), cs.start, cs.stop))
+    return [("post.one_result_row_per_selected_row", length(r) == length(sel)), ("post.cells_of_the_requested_columns", at)]
+
+
+getitem = Contract(
+    M + "FSArray.__getitem__", "C04", ["self", "slicetuple"], kind="method",
+    shapes=[Shape("row", dict(self=_arr(), slicetuple=IntT(0))),
+            Shape("rows", dict(self=_arr(), slicetuple=SliceT(IntT(0), IntT(0), None))),
+            Shape("region", dict(self=_arr(), slicetuple=TupleT(SliceT(IntT(0), IntT(0), None), SliceT(IntT(0), IntT(0), None))))],
+    raises={"IndexError": lambda a: (a.slicetuple >= z3.Length(a.self.rows)) if z3.is_expr(a.slicetuple) else False},
+    ensures=_get_ensures,
+    callees={"normalize_slice": "formatstring:normalize_slice"})
+
+ALL = [setitem, getitem]
